@@ -1,8 +1,9 @@
 #!/bin/sh
 # runs every check of one tier: tools/run_all.sh [quick|thorough]
 tier=${1:-quick}
-cd /verif
-rc=0
+cd "$(dirname "$0")/.."
+first=1
 for p in C01 C02 C03 C04 C05 C06 C07 C08 C09 C10 C11 C12 C13 C14 C15 C16; do
-  ./check $p --tier $tier --no-build 2>&1 | grep -E "^(VIOLATION|MACHINERY|  key|C[0-9][0-9] )" | cut -c1-400
+  if [ $first = 1 ]; then nb=""; first=0; else nb="--no-build"; fi
+  ./check $p --tier $tier $nb 2>&1 | grep -E "^(VIOLATION|MACHINERY|  key|C[0-9][0-9] )" | cut -c1-400
 done
